@@ -26,7 +26,7 @@ static struct {
     int push_done[MAXTOK];   /* the push of the token has returned */
     uint64_t push_time[MAXTOK]; /* virtual time at which the latest push of the token was invoked / returned */
     int far_waits;           /* this run uses waits with a deadline nobody should ever reach */
-    long far_waits_done;
+    long far_waits_done, empty_wait_checks;
     client C[MAXCL];
     int ncl;
     lin_op H[LIN_MAX_OPS];
@@ -94,6 +94,24 @@ static void far_wait_check(client *c, int t, uint64_t deadline, const char *api)
     SIM_CHECK(!(now >= deadline && S.push_time[t] + FAR_WAIT_NS / 2 < deadline), "pool:slept-through-push",
               "%s of client %d returned unit %d only when its deadline had passed (%.0f virtual seconds after the push of that unit had returned)", api, c->id, t,
               (double)(now - S.push_time[t]) * 1e-9);
+}
+
+/* A blocking pop of a FIFO_WAIT pool sleeps on the pool's condition variable; every push signals
+ * it under the pool's mutex.  With a single consumer and without injected spurious wake-ups or
+ * clock jumps such a pop can come back empty-handed only through its time-out, i.e. after a look
+ * at the queue at or after its deadline: a unit whose push had returned before the deadline and
+ * that nobody else can have taken must have been found ("never loses a unit pushed while it
+ * waits").  deadline_lo is a lower bound of the deadline the library computed. */
+static void missed_push_check(client *c, uint64_t deadline_lo, const char *api)
+{
+    if (S.kind != 1 || S.multi_consumer || sim_faults_enabled())
+        return;
+    S.empty_wait_checks++;
+    for (int t = 0; t < S.ntok; t++)
+        if (S.owner[t] == -1 && S.push_done[t] && S.push_time[t] + 2000 < deadline_lo)
+            sim_fail("pool:blocking-pop-missed-push",
+                     "%s of client %d (the only consumer) returned empty-handed at %lu ns although the push of unit %d had returned at %lu ns, before the pop's deadline (>= %lu ns), and the unit is still in the pool",
+                     api, c->id, (unsigned long)sim_now_ns(), t, (unsigned long)S.push_time[t], (unsigned long)deadline_lo);
 }
 
 static int push_end(int arg)
@@ -223,6 +241,7 @@ static void do_op(client *c, int op, int arg)
                 deadline = sim_now_ns() + FAR_WAIT_NS;
             }
             ABT_thread th = ABT_THREAD_NULL;
+            uint64_t dl_lo = sim_now_ns() + (uint64_t)(secs * 1e9);
             int flavour = (arg >> 11) % 3; /* the three public spellings of a waiting pop */
             if (flavour == 0)
                 ABT_OK(ABT_pool_pop_wait_thread_ex(S.pool, &th, secs, popctx));
@@ -241,8 +260,10 @@ static void do_op(client *c, int op, int arg)
                 if (far)
                     far_wait_check(c, tok_index(th), deadline, "ABT_pool_pop_wait_thread");
                 S.waits_got++;
-            } else
+            } else {
                 S.waits_empty++;
+                missed_push_check(c, dl_lo, "ABT_pool_pop_wait");
+            }
             hend(o);
             break;
         }
@@ -264,8 +285,10 @@ static void do_op(client *c, int op, int arg)
                 if (far)
                     far_wait_check(c, tok_index(th), deadline, "ABT_pool_pop_timedwait");
                 S.waits_got++;
-            } else
+            } else {
                 S.waits_empty++;
+                missed_push_check(c, (uint64_t)(abst * 1e9), "ABT_pool_pop_timedwait");
+            }
             hend(o);
             break;
         }
@@ -449,6 +472,7 @@ static void run_pool(int wait_heavy)
     sim_count("pool.blocking_pop_empty", (uint64_t)S.waits_empty);
     sim_count("pool.removes_ok", (uint64_t)S.removes_ok);
     sim_count("pool.far_waits_that_got_a_unit", (uint64_t)S.far_waits_done);
+    sim_count("pool.empty_blocking_pops_checked", (uint64_t)S.empty_wait_checks);
     sim_count("pool.removes_refused_unit_gone", (uint64_t)S.removes_refused);
     /* drain, then let every token run so that it can be freed */
     for (;;) {
